@@ -151,20 +151,20 @@ theorem cutLists_fuel : ∀ (n : Nat) (s : Str) (acc : List Str) (k : Nat), s.co
               exact ih _ _ k hcnt
             · cases hrr
 
-/-- **the `array_tuple!` loop ends on every text**: `count('(') + 2` iterations are all it can use (one more than the
-number of `(` because of the single no-progress iteration before a panic) -/
+/-- **the `array_tuple!` loop ends on every text**: `count('(') + 1` iterations are all it can use — an iteration
+removes the first `(`, or panics, or is the single no-progress iteration, which is followed by a panic -/
 theorem cutTuples_fuel : ∀ (n : Nat) (s : Str) (acc : List Str) (k : Nat), s.count '(' ≤ n →
-    cutTuples (n + 2 + k) s acc = cutTuples (n + 2) s acc := by
+    cutTuples (n + 1 + k) s acc = cutTuples (n + 1) s acc := by
   intro n
   induction n with
   | zero =>
     intro s acc k hn
     have hno : '(' ∉ s := by
       intro hm; have := List.count_pos_iff.2 hm; omega
-    rw [show 0 + 2 + k = (k + 1) + 1 by omega, cutTuples_succ, cutTuples_succ, find_char_none hno]
+    rw [show 0 + 1 + k = k + 1 by omega, cutTuples_succ, cutTuples_succ, find_char_none hno]
   | succ m ih =>
     intro s acc k hn
-    rw [show m + 1 + 2 + k = (m + 2 + k) + 1 by omega, show m + 1 + 2 = (m + 2) + 1 by omega, cutTuples_succ, cutTuples_succ]
+    rw [show m + 1 + 1 + k = (m + 1 + k) + 1 by omega, cutTuples_succ, cutTuples_succ]
     cases hf : find ['('] s with
     | none => rfl
     | some start =>
@@ -212,15 +212,24 @@ theorem cutTuples_fuel : ∀ (n : Nat) (s : Str) (acc : List Str) (k : Nat), s.c
             subst hgg
             have hA : okT g2 := ⟨fun hm => hg (by simp [hm]), hg2⟩
             have hX : g2 ++ [')'] ++ '(' :: t = g2 ++ ')' :: '(' :: t := by simp
-            have hL := cutTuples_adjacent_step g2 t acc (m + 2 + k) hA
-            have hR := cutTuples_adjacent_step g2 t acc (m + 2) hA
+            have hL := cutTuples_adjacent_step g2 t acc (m + 1 + k) hA
+            have hR := cutTuples_adjacent_step g2 t acc (m + 1) hA
             rw [cutTuples_succ, ← hX, hf] at hL hR
             simp only [hf2] at hL hR
-            rw [hL, hR, show m + 2 + k = (m + 1 + k) + 1 by omega, cutTuples_adjacent_next _ _ _ _ hA,
-              show m + 2 = (m + 1) + 1 by omega, cutTuples_adjacent_next _ _ _ _ hA]
+            rw [hL, hR, show m + 1 + k = (m + k) + 1 by omega, cutTuples_adjacent_next _ _ _ _ hA,
+              cutTuples_adjacent_next _ _ _ _ hA]
           · -- `start > end + 1`: the slice panics at once
             have hsl : slice (g ++ '(' :: t) start (e + 1) = .panic := by
               unfold slice; rw [if_neg (by omega)]
             simp only [hsl]
+
+/-- the fuel the model gives the loops (`text.length + 1`) is never what decides the answer -/
+theorem cutTuples_fuel_text (s : Str) (acc : List Str) (k : Nat) :
+    cutTuples (s.length + 1 + k) s acc = cutTuples (s.length + 1) s acc :=
+  cutTuples_fuel s.length s acc k List.count_le_length
+
+theorem cutLists_fuel_text (s : Str) (acc : List Str) (k : Nat) :
+    cutLists (s.length + 1 + k) s acc = cutLists (s.length + 1) s acc :=
+  cutLists_fuel s.length s acc k List.count_le_length
 
 end ArrModel.C18
